@@ -5,7 +5,7 @@ independent std::map twin (and std::unordered_multimap for the wrapper) which is
 import os, re
 
 MS = [1, 2, 3, 4, 7, 15]
-BUCKETS = ['L', 'O8', 'O2']
+BUCKETS = ['L.c', 'O8.c', 'O2.c', 'L.f', 'O8.f', 'O2.f']
 
 # ----------------------------------------------------------------------------- generators
 class Shadow:
@@ -16,7 +16,11 @@ class Shadow:
     def apply(self, tok):
         w = tok.split(','); c = w[0][0]; a = list(map(int, w[1:]))
         cur = self.cur
-        if c == 'n': cur.setdefault(a[0], [])
+        if c == 'L':
+            cur.clear()
+            for q in range(0, min(len(a), 9) - 2, 3): cur.setdefault(a[q], []).append(a[q + 2])
+        elif c == 'M': pass
+        elif c == 'n': cur.setdefault(a[0], [])
         elif c == 'G':
             for q in range(0, len(a) - 2, 3): cur.setdefault(a[q], []).append(a[q + 2])
         elif c == 'a': cur.setdefault(a[0], []).append(a[2])
@@ -42,29 +46,48 @@ class Shadow:
         elif c == 'm': self.cur = self.oth; self.oth = {}
 
 
-def header(r, M=None, bucket=None, vt=None, hm=None):
-    return 'mm %s %d %s %d' % (bucket or r.choice(BUCKETS), M or r.choice(MS), vt or r.choice(['i', 'i', 's']),
-                               hm if hm is not None else r.choice([0, 0, 1, 2, 3, 4]))
+ENABLED = {}
+
+def wants_string(b, M):
+    """value type by parity (same rule as harness.cpp): *.c with odd M and *.f with even M hold std::string"""
+    return b.endswith('c') == (M % 2 == 1)
 
 
-def gen_growshrink(r, M, bucket, vt, big):
+def zero_tags(tok):
+    """fast-hash configurations have int keys without identity: every tag field becomes 0"""
+    w = tok.split(','); c = w[0][0]
+    if c in 'ain' and len(w) >= 3: w[2] = '0'
+    elif c == 't' and len(w) >= 3: w[2] = '0'
+    elif c in 'GL':
+        for q in range(2, len(w), 3): w[q] = '0'
+    return ','.join(w)
+
+
+def finish_case(r, ops, M=None, bucket=None, hm=None):
+    M = M or r.choice(MS); b = bucket or r.choice(ENABLED[M])
+    if b.endswith('f'): ops = [zero_tags(t) for t in ops]
+    return 'mm %s %d %s %d %s' % (b, M, 's' if wants_string(b, M) else 'i', hm if hm is not None else r.choice([0, 0, 1, 2, 3, 4]), ' '.join(ops))
+
+
+def gen_growshrink(r, M, big):
     """one or two keys: walk through every pool, the heap array growth and the shrink chain, down to a value-less key"""
     ops = []; sh = Shadow(); nv = [100]
     inj = r.chance(1, 2)        # this script injects allocation / key-relocation failures
     def add(tok):
-        if inj and tok[0] in 'aArRK' and tok[1] == ',' and r.chance(1, 2): tok = tok[0] + '!' + tok[1:]
+        if inj and tok[0] in 'aArRKy' and (len(tok) == 1 or tok[1] == ',') and r.chance(1, 2): tok = tok[0] + '!' + tok[1:]
         ops.append(tok); sh.apply(tok)
     def val():
         nv[0] += 1
         return nv[0] if r.chance(9, 10) else r.range(100, nv[0])
     k = r.range(0, 5)
-    n = r.choice([M, M + 1, 2 * M, 2 * M + 1, 4 * M + 1, 16, 17, 33, 40]) if not big else r.choice([65, 70, 130, 200])
+    n = r.choice([M, M + 1, 2 * M, 2 * M + 1, 4 * M + 1, 16, 17, 33, 40]) if not big else big
     for j in range(n):
         add('a,%d,%d,%d' % (k, j, val()) if r.chance(1, 2) else ('A,%d,%d' % (k, val()) if k in sh.cur else 'a,%d,%d,%d' % (k, j, val())))
         if r.chance(1, 12): add('a,%d,%d,%d' % (k + 1, 7, val()))
-    if r.chance(1, 3): add(r.choice(['y', 'y,1']));
+        if r.chance(1, 25) and k in sh.cur: add('M,%d,%d' % (k, r.choice([0, len(sh.cur[k]), r.below(len(sh.cur[k]) + 1)])))
+    if r.chance(1, 3): add(r.choice(['y', 'y,1', 'y,2']));
     if r.chance(1, 4): add(r.choice(['s', 's,1']))
-    if r.chance(1, 4) and k not in sh.cur: add(r.choice(['Y', 'm', 'm,1', 's']))
+    if r.chance(1, 4) and k not in sh.cur: add(r.choice(['Y', 'm', 'm,1', 'm,2', 'm,3', 's']))
     mode = r.below(4)
     while k in sh.cur and sh.cur[k]:
         L = len(sh.cur[k])
@@ -72,8 +95,8 @@ def gen_growshrink(r, M, bucket, vt, big):
         add('%s,%d,%d' % (r.choice('rR'), k, i))
         if r.chance(1, 15): add('A,%d,%d' % (k, val()))
     if k in sh.cur:
-        add(r.choice(['A,%d,%d' % (k, val()), 'i,%d,5' % k, 't,%d,77' % k, 'v,%d' % k, 'p,1,1,2,0']))
-        add(r.choice(['k,%d' % k, 'K,%d' % k, 'c', 'y', 'a,%d,9,%d' % (k, val())]))
+        add(r.choice(['A,%d,%d' % (k, val()), 'i,%d,5' % k, 't,%d,77' % k, 'v,%d' % k, 'p,1,1,2,0', 'M,%d,0' % k]))
+        add(r.choice(['k,%d' % k, 'K,%d' % k, 'c', 'y', 'a,%d,9,%d' % (k, val()), 'm,2', 'm,3']))
     return ops
 
 
@@ -87,7 +110,7 @@ def gen_random(r, nkeys, nops, wide):
         cur = sh.cur
         present = list(cur.keys())
         nonempty = [k for k in present if cur[k]]
-        t = r.below(100)
+        t = r.below(104)
         k = r.below(nkeys)
         if t < 3: tok = 'n,%d,%d' % (k, r.below(50))
         elif t < 6: tok = 'G,' + ','.join('%d,%d,%d' % (r.below(nkeys), r.below(50), val()) for _ in range(r.range(1, 4)))
@@ -107,10 +130,16 @@ def gen_random(r, nkeys, nops, wide):
         elif t < 88: tok = 't,%d,%d' % ((r.choice(present) if present else k), r.below(50))
         elif t < 89: tok = 'c'
         elif t < 93: tok = r.choice(['s', 's,1'])
-        elif t < 96: tok = r.choice(['y', 'y,1'])
+        elif t < 96: tok = r.choice(['y', 'y,1', 'y,2'])
         elif t < 98: tok = r.choice(['Y', 'Y,1'])
-        else: tok = r.choice(['m', 'm,1'])
-        if inj and tok[0] in 'aArRK' and tok[1] == ',' and r.chance(1, 3): tok = tok[0] + '!' + tok[1:]
+        elif t < 100: tok = r.choice(['m', 'm,1', 'm,2', 'm,3'])
+        elif t < 101:
+            tok = 'L' + ''.join(',%d,%d,%d' % (r.below(nkeys), r.below(50), val()) for _ in range(r.range(0, 3)))
+        else:
+            if present:
+                kk = r.choice(present); L = len(cur[kk]); tok = 'M,%d,%d' % (kk, r.choice([0, L, r.below(L + 1)]))
+            else: tok = 'M,%d,0' % k
+        if inj and tok[0] in 'aArRKy' and (len(tok) == 1 or tok[1] == ',') and r.chance(1, 3): tok = tok[0] + '!' + tok[1:]
         ops.append(tok); sh.apply(tok)
     return ops
 
@@ -118,22 +147,41 @@ def gen_random(r, nkeys, nops, wide):
 def gen_cases(ctx, scale):
     r = ctx.rng
     cases = []
-    # aimed: every M x bucket, both value types: pool walk / heap growth / shrink chain
+    for M in MS: ENABLED[M] = enabled(ctx, M)
+    only = [int(x) for x in os.environ.get('VERIF_C08_MS', '').split(',') if x]
+    # aimed: every M x configuration (value type by parity): pool walk / heap growth / shrink chain
     for M in MS:
-        for b in BUCKETS:
-            for vt in ('i', 's'):
-                for rep in range(4 * scale):
-                    cases.append(header(r, M, b, vt) + ' ' + ' '.join(gen_growshrink(r, M, b, vt, False)))
-        for rep in range(3 * scale):
-            cases.append(header(r, M, None, 'i') + ' ' + ' '.join(gen_growshrink(r, M, None, 'i', True)))
-    # random histories: few keys with many values, and many keys (hash table growth, collisions)
+        for b in ENABLED[M]:
+            for rep in range((12 if scale == 1 else 6) * scale):
+                cases.append(finish_case(r, gen_growshrink(r, M, 0), M, b))
+        # long arrays: GrowCapacity bands (<= 64 doubling, +64 below 150, +cap/50*23 above) and the whole shrink chain
+        for big in ([70, 200] if scale == 1 else [65, 70, 130, 200, 300, 520]):
+            cases.append(finish_case(r, gen_growshrink(r, M, big), M))
+    cases.append(finish_case(r, gen_growshrink(r, 3, 520), 3, 'O8.f'))
+    cases.append(finish_case(r, gen_growshrink(r, 15, 520), 15, 'L.f'))
+    # many keys: the key table grows several times (every bucket class), pool buffers fill up; no Clear / re-initialisation
+    for i in range(12 * scale):
+        ops = []; nv = 0; nk = r.choice([70, 140, 300, 600]); live = []
+        for j in range(nk):
+            k = r.below(2 * nk); nv += 1
+            ops.append(r.choice(['a,%d,%d,%d' % (k, j % 50, nv), 'a,%d,%d,%d' % (k, j % 50, nv), 'i,%d,%d' % (k, j % 50), 'n,%d,%d' % (k, j % 50),
+                                 'G,%d,1,%d,%d,2,%d' % (k, nv, r.below(2 * nk), nv + 1)]))
+            live.append(k)
+            if r.chance(1, 6): ops.append('A,%d,%d' % (r.choice(live), nv))
+            if r.chance(1, 8): ops.append(r.choice(['K,%d', 'k,%d', 'v,%d', 'K!,%d']) % r.choice(live))
+            if r.chance(1, 40): ops.append(r.choice(['y', 'y,2', 's', 'p,1,1,3,0', 'M,%d,0' % r.choice(live)]))
+            if r.chance(1, 10) and r.chance(1, 2): ops[-1] = ops[-1].replace('a,', 'a!,', 1) if ops[-1].startswith('a,') else ops[-1]
+        cases.append(finish_case(r, ops))
+    # random histories: few keys with many values, and many keys (hash table growth, collisions, pool buffers)
     for i in range(1500 * scale):
-        shape = r.below(4)
-        if shape == 0: nkeys, nops = r.range(1, 3), r.range(30, 90)
-        elif shape == 1: nkeys, nops = r.range(3, 8), r.range(30, 80)
-        elif shape == 2: nkeys, nops = r.range(20, 60), r.range(40, 100)
-        else: nkeys, nops = r.range(1, 6), r.range(5, 25)
-        cases.append(header(r) + ' ' + ' '.join(gen_random(r, nkeys, nops, shape == 2)))
+        shape = r.below(16)
+        if shape < 4: nkeys, nops = r.range(1, 3), r.range(30, 90)
+        elif shape < 8: nkeys, nops = r.range(3, 8), r.range(30, 80)
+        elif shape < 11: nkeys, nops = r.range(20, 60), r.range(40, 100)
+        elif shape < 15: nkeys, nops = r.range(1, 6), r.range(5, 25)
+        else: nkeys, nops = r.range(200, 400), r.range(300, 600)      # several growths of every bucket type
+        cases.append(finish_case(r, gen_random(r, nkeys, nops, shape >= 8)))
+    if only: cases = [c for c in cases if int(c.split()[2]) in only]
     return cases
 
 
@@ -188,6 +236,103 @@ def oracle(ctx, cases, impl_lines):
     return bad
 
 
+# quick tier: every TU (one per maxFastCount) instantiates 2-3 of the 6 configurations (compile time); each configuration is
+# built for an even and at least one odd M, i.e. with both value types.  thorough: all 6 per M.
+QUICK_SETS = {1: ['O8.c', 'L.f'], 2: ['L.c', 'O8.f', 'O2.c'], 3: ['L.c', 'O8.f'], 4: ['O8.c', 'L.f', 'O2.f'],
+              7: ['O2.c', 'O8.c'], 15: ['O2.f', 'L.f']}
+SAN_MS = [2, 4, 15]
+MAC = {'L.c': 'EN_LC', 'O8.c': 'EN_O8C', 'O2.c': 'EN_O2C', 'L.f': 'EN_LF', 'O8.f': 'EN_O8F', 'O2.f': 'EN_O2F'}
+
+def enabled(ctx, M):
+    return QUICK_SETS[M] if ctx.quick() else BUCKETS      # thorough: the remaining configurations come from the harness_c<M> TUs
+
+EXPECT_CFG = {   # substrings that the harness' description of the instantiated classes must contain
+    'L.c':  ['bucket=momo::internal::BucketLimP4 ', 'lastarg=, true>', 'fasthash=0', 'cv=00', 'realloc=1', 'poolblocks=32 '],
+    'O8.c': ['bucket=momo::internal::BucketOpen2N2 ', 'lastarg=, true>', 'fasthash=0', 'cv=00', 'realloc=1'],   # Open8 falls back for slow-hash keys
+    'O2.c': ['bucket=momo::internal::BucketOpen2N2 ', 'lastarg=, true>', 'fasthash=0', 'cv=11', 'realloc=0'],
+    'L.f':  ['bucket=momo::internal::BucketLimP4 ', 'lastarg=, false>', 'fasthash=1', 'cv=11', 'realloc=1', 'poolblocks=3 ', 'cached=1'],
+    'O8.f': ['bucket=momo::internal::BucketOpen8 ', 'fasthash=1', 'cv=00', 'realloc=1'],
+    'O2.f': ['bucket=momo::internal::BucketOpen2N2 ', 'lastarg=, false>', 'fasthash=1', 'cv=00', 'realloc=0', 'poolblocks=5 ', 'cached=0'],
+}
+
+def config_audit(ctx, exes):
+    """the INTENDED classes are really instantiated: ask the binary serving each (M, configuration) to describe it"""
+    bad = []; seen = {}
+    for key, h in sorted((k, v) for k, v in exes.items() if k != 0):
+        M, b = key
+        path = os.path.join(ctx.build, 'cfg.cases'); open(path, 'w').write('cfg %s %d %s 0\n' % (b, M, 's' if wants_string(b, M) else 'i'))
+        rc, out, err = ctx.run_lines([h], path)
+        l = out[0] if out else '<missing>'
+        want = EXPECT_CFG[b] + ['M=%d ' % M, 'trivreloc=%d' % (0 if wants_string(b, M) else 1)]
+        miss = [w for w in want if w not in l + ' ']
+        if miss: bad.append('%s M=%d: %s lacks %s' % (b, M, l, miss))
+        seen['%s/M%d' % (b, M)] = l + (' [sanitized]' if h.endswith('.san') else '')
+    ctx.coverage['instantiated_configurations'] = seen
+    ctx.stage('config-audit', not bad, '\n'.join(bad))
+    ctx.tie_obligations.append({'name': 'intended bucket / manager / settings classes instantiated (%d configurations)' % len(seen), 'ok': not bad})
+
+
+ENT = re.compile(r'\{(-?\d+):(-?\d+):([^:]*):([^}]*)\}')
+
+def measure(dist, case, out):
+    """measured (not planned) coverage of one HashMultiMap case, from the implementation's output"""
+    w = case.split()
+    cfgk = '%s/M%s/%s' % (w[1], w[2], w[3])
+    dist['cases_per_configuration'][cfgk] = dist['cases_per_configuration'].get(cfgk, 0) + 1
+    if w[1].endswith('c'): dist['cases_per_hash_function'][w[4]] = dist['cases_per_hash_function'].get(w[4], 0) + 1
+    ev = dist['events']
+    prev = None; maxlen = 0; maxkeys = 0; maxcap = 0
+    toks = w[5:]
+    for tok, rec in zip(toks, out.split('|')):
+        parts = rec.split(';')
+        if len(parts) < 2: continue
+        cur = {}
+        for k, t, rep, vs in ENT.findall(parts[1].split(' T=')[0]):
+            n = (vs.count(',') + 1) if vs else 0
+            cur[k] = (rep, n)
+            maxlen = max(maxlen, n)
+            if rep.startswith('H'): maxcap = max(maxcap, int(rep[1:].split('.')[0]))
+        maxkeys = max(maxkeys, len(cur))
+        if prev is not None and tok[0] in 'aAGrRpvn':
+            for k, (rep, n) in cur.items():
+                if k not in prev: continue
+                prep, pn = prev[k]
+                if prep == rep: continue
+                a, b = prep[0], rep[0]
+                if a == 'N' and b == 'F': ev['null->pool'] += 1
+                elif a == 'F' and b == 'F':
+                    if prep.split('.')[1] != rep.split('.')[1]: ev['pool->next pool'] += 1
+                elif a == 'F' and b == 'H': ev['pool->heap'] += 1
+                elif a == 'H' and b == 'H':
+                    c0, c1 = int(prep[1:].split('.')[0]), int(rep[1:].split('.')[0])
+                    if c1 > c0: ev['heap grow'] += 1; ev['heap grow beyond 64'] += (c0 >= 64); ev['heap grow beyond 150'] += (c0 >= 150)
+                    elif c1 < c0: ev['heap shrink'] += 1
+                    elif n < pn and pn > 2 and pn <= c0 // 4: ev['heap shrink failed (swallowed)'] += 1
+                elif b == 'N' and a == 'F': ev['pool->null (value-less key)'] += 1
+                elif b == 'N' and a == 'H': ev['heap->null (value-less key)'] += 1
+        if 'skip' == parts[0]: ev['op skipped (precondition)'] += 1
+        if any(n == 0 for rep, n in cur.values()): ev['records with a value-less key'] += 1
+        prev = cur
+    def bucket(x, edges, names):
+        for e, nm in zip(edges, names):
+            if x <= e: return nm
+        return names[-1]
+    kb = bucket(maxlen, [0, 1, 5, 15, 40, 150], ['0', '1', '2-5', '6-15', '16-40', '41-150', '>150'])
+    dist['cases_by_max_values_per_key'][kb] = dist['cases_by_max_values_per_key'].get(kb, 0) + 1
+    nb = bucket(maxkeys, [1, 8, 32, 64, 128], ['<=1', '2-8', '9-32', '33-64', '65-128', '>128'])
+    dist['cases_by_max_key_count'][nb] = dist['cases_by_max_key_count'].get(nb, 0) + 1
+    cb = bucket(maxcap, [0, 64, 149], ['no heap array', 'cap<=64', 'cap 65-149', 'cap>=150'])
+    dist['cases_by_max_heap_capacity'][cb] = dist['cases_by_max_heap_capacity'].get(cb, 0) + 1
+
+
+def new_dist():
+    return {'cases_per_configuration': {}, 'cases_per_hash_function': {}, 'cases_by_max_values_per_key': {}, 'cases_by_max_key_count': {},
+            'cases_by_max_heap_capacity': {},
+            'events': {k: 0 for k in ['null->pool', 'pool->next pool', 'pool->heap', 'heap grow', 'heap grow beyond 64', 'heap grow beyond 150',
+                                      'heap shrink', 'heap shrink failed (swallowed)', 'pool->null (value-less key)', 'heap->null (value-less key)',
+                                      'op skipped (precondition)', 'records with a value-less key']}}
+
+
 def M_of(case):
     w = case.split()
     return int(w[2]) if w[0] == 'mm' else 0
@@ -211,44 +356,63 @@ def _src_hash(ctx, src, flags):
 
 
 def build(ctx):
-    """build (or reuse: the binary name carries the hash of all its inputs, incl. every header of the repo in use)"""
-    g0 = ['-g0'] if ctx.quick() else []      # debug info doubles the compile time of these template-heavy TUs
-    jobs = [('harness.cpp', 'harness_m%d' % M, ['-DHM_LIST=X(%d)' % M] + g0) for M in MS]
-    jobs.append(('harness_um.cpp', 'harness_um', g0))
-    exes = {}; todo = []; names = {}
-    for src, exe, fl in jobs:
+    """build (or reuse: the binary name carries the hash of all its inputs, incl. every header of the repo in use).
+    returns {(M, configuration): exe, 0: wrapper exe}.  Every tier builds, per maxFastCount M, a TU with the QUICK_SETS[M]
+    configurations (sanitized in the thorough tier); the thorough tier adds a second, unsanitized TU per M with the
+    remaining configurations, so that all 36 (M, configuration) pairs run there."""
+    import concurrent.futures as cf
+    quick = ctx.quick()
+    only = [int(x) for x in os.environ.get('VERIF_C08_MS', '').split(',') if x]      # restrict to some M (mutant re-runs on a loaded machine)
+    jobs = []                                 # (src, exe, flags, sanitize, [(M, cfg)...] or 0)
+    for M in MS:
+        if only and M not in only: continue
+        san = (not quick) and M in SAN_MS     # thorough: ASan+UBSan for M in SAN_MS (together they contain all 6 configurations)
+        jobs.append(('harness.cpp', 'harness_m%d' % M, ['-DHM_LIST=X(%d)' % M, '-DEN_SUBSET'] + ['-D' + MAC[x] for x in QUICK_SETS[M]] + (['-g1'] if san else ['-g0']),
+                     san, [(M, x) for x in QUICK_SETS[M]]))      # -g0/-g1: full debug info doubles the compile time of these TUs
+        if not quick:
+            rest = [x for x in BUCKETS if x not in QUICK_SETS[M]]
+            jobs.append(('harness.cpp', 'harness_c%d' % M, ['-DHM_LIST=X(%d)' % M, '-DEN_SUBSET'] + ['-D' + MAC[x] for x in rest] + ['-g0'],
+                         False, [(M, x) for x in rest]))
+    jobs.append(('harness_um.cpp', 'harness_um', ['-g0'] if quick else ['-g1'], not quick, 0))
+    paths = {}; todo = []
+    for src, exe, fl, san, serves in jobs:
         name = '%s_%s' % (exe, _src_hash(ctx, src, fl))
-        names[exe] = name
-        path = os.path.join(ctx.build, name + ('.san' if not ctx.quick() else ''))
-        if os.path.exists(path) and os.environ.get('VERIF_NO_CACHE') != '1':
-            exes[exe] = path
-        else:
-            todo.append((src, name, fl))
+        path = os.path.join(ctx.build, name + ('.san' if san else ''))
+        if os.path.exists(path) and os.environ.get('VERIF_NO_CACHE') != '1': paths[exe] = path
+        else: todo.append((src, exe, name, fl, san))
     if todo:
-        res = ctx.cxx_many(todo)
-        for src, exe, fl in jobs:
-            if exe not in exes: exes[exe] = res.get(names[exe])
-    # drop stale binaries of other hashes (keep the directory small)
-    keep = set(os.path.basename(p) for p in exes.values() if p)
-    for f in os.listdir(ctx.build):
-        if f.startswith('harness_') and f not in keep and f.endswith('.san') == (not ctx.quick()) and os.path.isfile(os.path.join(ctx.build, f)) and os.environ.get('VERIF_REPO') is None:
-            try: os.remove(os.path.join(ctx.build, f))
-            except OSError: pass
-    ctx.coverage['harness_cache'] = {'rebuilt': [t[1] for t in todo], 'reused': len(jobs) - len(todo)}
-    out = {M: exes.get('harness_m%d' % M) for M in MS}
-    out[0] = exes.get('harness_um')
-    missing = [k for k, v in out.items() if v is None]
+        with cf.ThreadPoolExecutor(max_workers=8 if quick else 5) as ex:      # sanitized TUs need ~2 GB each
+            futs = {ex.submit(ctx.cxx, src, name, fl, san, 2400): exe for (src, exe, name, fl, san) in todo}
+            for fu in cf.as_completed(futs): paths[futs[fu]] = fu.result()
+    if os.environ.get('VERIF_REPO') is None:      # drop stale binaries (same TU, same sanitizer setting, other hash)
+        for src, exe, fl, san, serves in jobs:
+            cur = os.path.basename(paths.get(exe) or '')
+            for f in os.listdir(ctx.build):
+                if f.startswith(exe + '_') and f != cur and f.endswith('.san') == san and os.path.isfile(os.path.join(ctx.build, f)):
+                    try: os.remove(os.path.join(ctx.build, f))
+                    except OSError: pass
+    ctx.coverage['harness_cache'] = {'rebuilt': [t[2] for t in todo], 'reused': len(jobs) - len(todo)}
+    out = {}; missing = []
+    for src, exe, fl, san, serves in jobs:
+        if paths.get(exe) is None: missing.append(exe); continue
+        if serves == 0: out[0] = paths[exe]
+        else:
+            for key in serves: out[key] = paths[exe]
     if missing:
-        ctx.stage('build-harness', False, 'harness for %s does not build:\n%s' % (missing, getattr(ctx, 'last_cxx_error', '')))
+        ctx.stage('build-harness', False, 'harness %s does not build:\n%s' % (missing, getattr(ctx, 'last_cxx_error', '')))
     return out
+
+
+def cfg_of(case):
+    w = case.split()
+    return (int(w[2]), w[1]) if w[0] == 'mm' else 0
 
 
 def replay(ctx, rp):
     case = rp.get('case')
     if not case:
         print('replay has no concrete case (no-failing-input-found): broken stages were', list(rp.get('broken', {}).keys())); return 1
-    M = M_of(case)
-    h = build(ctx).get(M)
+    h = build(ctx).get(cfg_of(case))
     if h is None:
         print('harness does not build'); return 2
     path = os.path.join(ctx.build, 'replay.cases'); open(path, 'w').write(case + '\n')
@@ -277,20 +441,36 @@ def run(ctx):
                         'the hash function and equality are consistent (equal ids hash equally); keys are (id, tag) compared by id',
                         'calls violating a documented precondition (absent key iterator, value index out of range) are not made',
                         'the order of keys in GetKeyBounds / traversal is the hash table order and is not modelled (outputs are grouped by key)']
+    # the C++ builds do not depend on the proofs: run them while Coq (and coqchk in the thorough tier) is busy
+    import threading
+    res = {}
+    def _bg():
+        try: res['exes'] = build(ctx)
+        except Exception as e: res['err'] = repr(e)
+    th = threading.Thread(target=_bg); th.start()
     ctx.prove()
-    exes = build(ctx)
+    th.join()
+    if 'exes' not in res:
+        ctx.stage('build-harness', False, 'build thread failed: %s' % res.get('err'))
+        return ctx.finish(rule=RULE)
+    exes = res['exes']
+    config_audit(ctx, exes)
     cases = gen_cases(ctx, scale)
     um_cases = gen_um_cases(ctx, scale) if exes.get(0) else []
     have_model = ctx.stages.get('prove', {}).get('ok') and ctx.extract()
     if any(not s['ok'] for s in ctx.stages.values()):
         ctx.log('a stage broke: searching the implementation for a failing input with the thorough generator')
         cases = cases + gen_cases(ctx, 4)
-    groups = [(M, [c for c in cases if M_of(c) == M]) for M in MS] + [(0, um_cases)]
-    total_bad = []; injected_total = [0, 0, 0, 0]
-    for M, cs in groups:
-        h = exes.get(M)
+    byexe = {}
+    for c in cases:
+        h = exes.get(cfg_of(c))
+        if h is not None: byexe.setdefault(h, []).append(c)
+    groups = sorted(byexe.items()) + [(exes.get(0), um_cases)]
+    total_bad = []; injected_total = [0, 0, 0, 0, 0, 0]; dist = new_dist()
+    for h, cs in groups:
         if h is None or not cs: continue
-        name = ('mm-M%d' % M) if M else 'wrapper'
+        M = 0 if h == exes.get(0) else 1
+        name = 'wrapper' if not M else 'mm-' + re.sub(r'^harness_([mc]\d+)_.*$', r'\1', os.path.basename(h))
         impl_lines = None
         if have_model:
             mism, (rc1, e1, rc2, e2) = ctx.correspond(name, cs, [h], [ctx.model_exe])
@@ -305,26 +485,32 @@ def run(ctx):
         path = os.path.join(ctx.build, name + '.oracle.cases')
         open(path, 'w').write('\n'.join(cs) + '\n')
         rc, lines, err = ctx.run_lines([h], path)
-        mi = re.search(r'injected=(\d+) add_throw=(\d+) shrink_swallowed=(\d+) removekey_rollback=(\d+)', err or '')
+        mi = re.search(r'injected=(\d+) add_throw=(\d+) shrink_swallowed=(\d+) removekey_rollback=(\d+) copy_throw=(\d+) growth_failure_swallowed=(\d+)', err or '')
         if mi:
-            for q in range(4): injected_total[q] += int(mi.group(q + 1))
+            for q in range(6): injected_total[q] += int(mi.group(q + 1))
+        if M and rc == 0 and len(lines) == len(cs):
+            for c, o in zip(cs, lines): measure(dist, c, o)
         if not have_model: ctx.evaluations += len(cs)
         bad = oracle(ctx, cs, lines) if rc == 0 and len(lines) == len(cs) else [(cs[min(len(lines), len(cs) - 1)], err[-400:], 'harness crashed (rc=%d) after %d cases' % (rc, len(lines)))]
         total_bad += bad
     ctx.stage('oracle', not total_bad, total_bad[0][2] if total_bad else '')
     for (c, out, why) in total_bad[:3]:
-        M = M_of(c)
-        ctx.violation(why, {'case': c, 'impl_output_tail': out, 'cmd': 'echo "%s" | %s' % (c, exes.get(M))}, found_input=True)
+        ctx.violation(why, {'case': c, 'impl_output_tail': out, 'cmd': 'echo "%s" | %s' % (c, exes.get(cfg_of(c)))}, found_input=True)
     allc = cases + um_cases
     for c in allc[::max(1, len(allc) // 6)][:6]:
         ctx.add_sample(c[:300])
-    dist = {}
+    oph = {}
     for c in cases:
         for tok in c.split()[5:]:
-            dist[tok[0]] = dist.get(tok[0], 0) + 1
-    ctx.coverage['injected_failures_fired'] = dict(zip(['total', 'add_threw_bad_alloc', 'shrink_failure_swallowed', 'removekey_rolled_back'], injected_total))
-    ctx.coverage['input_distribution'] = {'mm_cases': len(cases), 'wrapper_cases': len(um_cases), 'mm_op_histogram': dist,
-                                          'configs': 'buckets %s x maxFastCount %s x value types int64/std::string x 5 hash functions' % (BUCKETS, MS)}
+            kk = tok.split(',')[0]; oph[kk] = oph.get(kk, 0) + 1
+    uph = {}; ucfg = {}
+    for c in um_cases:
+        w = c.split(); ucfg['%s/M%s' % (w[1], w[2])] = ucfg.get('%s/M%s' % (w[1], w[2]), 0) + 1
+        for tok in w[5:]: uph[tok[0]] = uph.get(tok[0], 0) + 1
+    dist.update({'wrapper_op_histogram': uph, 'wrapper_cases_per_configuration': ucfg})
+    ctx.coverage['injected_failures_fired'] = dict(zip(['total', 'add_threw_bad_alloc', 'shrink_failure_swallowed', 'removekey_rolled_back', 'copy_threw_bad_alloc', 'table_growth_failure_swallowed_by_HashSet'], injected_total))
+    ctx.coverage['input_distribution'] = {'mm_cases': len(cases), 'wrapper_cases': len(um_cases), 'mm_op_histogram': oph, 'measured': dist,
+                                          'configs': 'configurations %s (see harness.cpp) x maxFastCount %s; value type by parity of M; 5 hash functions for the *.c keys' % (BUCKETS, MS)}
     return ctx.finish(rule=RULE)
 
 
@@ -370,7 +556,16 @@ def gen_um_cases(ctx, scale):
                 m = r.range(1, 4); a, bb, rr = r.below(3), r.range(0, 2), r.below(m)
                 tok = 'f,%d,%d,%d,%d' % (a, bb, m, rr)
                 cur = {x: [v for v in vs if (a * x + bb * v) % m != rr] for x, vs in cur.items()}
-            elif t < 84: tok = 'c'; cur = {}
+            elif t < 83: tok = 'c'; cur = {}
+            elif t < 84:
+                kind = r.below(3)
+                if kind == 0:
+                    ps = [(r.below(K), r.below(9)) for _ in range(r.range(0, 3))]
+                    tok = 'n' + ''.join(',%d,%d' % p for p in ps)
+                    for kq, vq in ps: cur.setdefault(kq, []).append(vq)
+                    if not ps: tok = 'h,%d,%d' % (k, 3); cur.setdefault(k, []).append(3)
+                elif kind == 1: tok = 'h,%d,%d' % (k, r.below(9)); cur.setdefault(k, []).append(0)
+                else: tok = r.choice(['m', 'm,1']); cur = oth; oth = {}
             elif t < 92: tok = 'y'; oth = {x: list(v) for x, v in cur.items()}
             elif t < 95: tok = 'Y'; cur = {x: list(v) for x, v in oth.items()}
             else: tok = r.choice(['s', 's,1']); cur, oth = oth, cur
